@@ -239,12 +239,21 @@ pub fn child(args: &Args) -> i32 {
             });
             passes.push(json!({"before": before, "after": fz.number(), "stopped": fz.stopped.load(Ordering::SeqCst), "error": err}));
             fz.stopped.store(false, Ordering::SeqCst);
+            if pass == 1 {
+                // readers between an interrupted pass and the pass that appends the rest
+                // (retrieves from the freezer's head file before more items are appended to it)
+                result["frozen_between_passes"] = json!(fnum(&node));
+                result["answers_between_passes"] = json!(node_answers(node.shared.store(), q));
+            }
         }
         result["passes"] = json!(passes);
         result["frozen_after_freeze"] = json!(fnum(&node));
         result["answers_after_freeze"] = json!(node_answers(node.shared.store(), q));
         marker.mark("child-end");
     } else {
+        // the view block verification and the script data loader use: a store transaction (first,
+        // with cold caches), then the store itself
+        result["answers_via_transaction_after_open"] = json!(node_answers(&node.shared.store().begin_transaction(), q));
         result["answers_after_open"] = json!(node_answers(node.shared.store(), q));
         result["frozen_after_open"] = json!(fnum(&node));
         if freezer {
@@ -375,7 +384,20 @@ fn sync_monitor(r: &mut Report, scratch: &vbase::Scratch, pristine: &Path, histo
             return None;
         }
         Ok(o) if !o.status.success() || res.is_none() => {
-            let tail: String = String::from_utf8_lossy(&o.stderr).lines().rev().take(4).collect::<Vec<_>>().join(" | ");
+            let stderr = String::from_utf8_lossy(&o.stderr).to_string();
+            // a panic raised inside the node's own code while it answers queries about frozen
+            // blocks is a verdict, not a harness failure
+            if let Some(line) = stderr.lines().find(|l| l.contains("panicked at") && (l.contains("/store/src/") || l.contains("/freezer/src/") || l.contains("/shared/src/"))) {
+                let msg: String = stderr.lines().skip_while(|l| !l.contains("panicked at")).take(2).collect::<Vec<_>>().join(" ");
+                let loc = line.split("panicked at ").nth(1).unwrap_or("").split(':').next().unwrap_or("").rsplit('/').next().unwrap_or("").to_string();
+                r.violation(
+                    &format!("node_panicked_while_answering@interrupted_pass_then_reads_then_completing_pass:{loc}"),
+                    format!("the node panicked in a child that froze part of the chain (pass cut short after {stop_after} blocks), answered the query vector, and froze the rest: {}", msg.chars().take(400).collect::<String>()),
+                    wit0.clone(),
+                );
+                return None;
+            }
+            let tail: String = stderr.lines().rev().take(4).collect::<Vec<_>>().join(" | ");
             r.inconclusive(&format!("sync monitor: traced freeze child failed ({}): {tail}", o.status));
             return None;
         }
@@ -694,6 +716,10 @@ pub fn run(args: &Args) -> i32 {
         match s {
             None => r.violation("reopen_after_freeze_failed", err, wit0.clone()),
             Some(s) => {
+                if !s["answers_via_transaction_after_open"].is_null() {
+                    judge(&to_answers(&s["answers_via_transaction_after_open"]), &exp, rc, &side, s["frozen_after_open"].as_u64().unwrap_or(0), "after_restart_cold_caches_via_store_transaction", &wit0, &mut r);
+                    r.count("vectors_via_store_transaction");
+                }
                 judge(&to_answers(&s["answers_after_open"]), &exp, rc, &side, s["frozen_after_open"].as_u64().unwrap_or(0), "after_restart_cold_caches", &wit0, &mut r);
                 r.distinct(vbase::fnv1a(format!("{hi}-restart").as_bytes()));
                 if s["frozen_after_open"].as_u64() != Some(frozen) {
@@ -714,6 +740,10 @@ pub fn run(args: &Args) -> i32 {
                 let res = sync_monitor(&mut r, &scratch, &pristine, &file, hi, frozen, k, &wit0);
                 if let Some(res) = res {
                     let fa = res["frozen_after_freeze"].as_u64().unwrap_or(0);
+                    if !res["answers_between_passes"].is_null() {
+                        judge(&to_answers(&res["answers_between_passes"]), &exp, rc, &side, res["frozen_between_passes"].as_u64().unwrap_or(0), "between_interrupted_and_completing_pass", &wit0, &mut r);
+                        r.count("vectors_between_passes");
+                    }
                     judge(&to_answers(&res["answers_after_freeze"]), &exp, rc, &side, fa, "after_interrupted_and_completed_pass", &wit0, &mut r);
                     if fa != frozen {
                         r.violation("interrupted_pass_then_next_pass_does_not_reach_same_end", format!("{fa} vs {frozen}; passes {}", res["passes"]), wit0.clone());
